@@ -197,9 +197,14 @@ func runAtomicWrite(c *Ctx, r *Reporter) {
 	wq := "writeAtomically"
 	wpos := p.Rel(writer.Pos())
 	if createTemp == nil || write == nil || closeC == nil || rename == nil {
-		r.Viol(wq+"#sequence", wpos, "writeAtomically must create a temp file, write it, close it and rename it onto the target")
-		return
+		// the steps may be spread over helpers of writeAtomically: they are then checked along the chain of calls
+		if !atomicWriteChain(p, r, writer, wq, wpos) {
+			r.Viol(wq+"#sequence", wpos, "writeAtomically must create a temp file, write it, close it and rename it onto the target")
+			return
+		}
+		goto callers
 	}
+	{
 	var filename, data ssa.Value
 	for _, prm := range writer.Params {
 		if b, ok := prm.Type().Underlying().(*types.Basic); ok && b.Kind() == types.String {
@@ -262,6 +267,8 @@ func runAtomicWrite(c *Ctx, r *Reporter) {
 		}
 	}
 	r.Check(okMode, wq+"#W4:permission-bits", wpos, "the temp file receives the target's permission bits (Stat → Chmod) before the rename", "the temp file created by os.CreateTemp has mode 0600; without a Chmod to the target's Stat().Mode().Perm() before the rename, `evy fmt -w` silently changes the file's permissions")
+	}
+callers:
 	// W5: callers
 	k := 0
 	for _, fn := range fns {
@@ -273,12 +280,42 @@ func runAtomicWrite(c *Ctx, r *Reporter) {
 				}
 				k++
 				construct := fmt.Sprintf("%s#W5:write[%d]", ssaQName(fn), k)
-				// dominated by success of every format call that dominates it or precedes it in the function
+				// dominated by success of every format call that dominates it or precedes it in the function; a helper
+				// of the command that formats (in place, say the members of an archive) and fails whenever format
+				// fails counts as a format call
 				var fmtCalls []*ssa.Call
+				viaHelper := map[*ssa.Call][]*ssa.Call{} // call of a formatting helper -> the format calls inside it
 				for _, b2 := range fn.Blocks {
 					for _, i2 := range b2.Instrs {
-						if c2, ok := i2.(*ssa.Call); ok && c2.Call.StaticCallee() == format {
+						c2, ok := i2.(*ssa.Call)
+						if !ok || c2.Call.StaticCallee() == nil {
+							continue
+						}
+						h := c2.Call.StaticCallee()
+						if h == format {
 							fmtCalls = append(fmtCalls, c2)
+							continue
+						}
+						if h.Pkg != fn.Pkg || h == writer || len(h.Blocks) == 0 || errResultOf(c2) == nil {
+							continue
+						}
+						var inner []*ssa.Call
+						tight := true
+						for _, hb := range h.Blocks {
+							for _, hi := range hb.Instrs {
+								if c3, ok := hi.(*ssa.Call); ok && c3.Call.StaticCallee() == format {
+									inner = append(inner, c3)
+									for _, ret := range returnsOf(h) {
+										if isSuccessReturn(ret) && pathFromFailingEdge(c3, ret) {
+											tight = false
+										}
+									}
+								}
+							}
+						}
+						if len(inner) > 0 && tight {
+							fmtCalls = append(fmtCalls, c2)
+							viaHelper[c2] = inner
 						}
 					}
 				}
@@ -297,6 +334,22 @@ func runAtomicWrite(c *Ctx, r *Reporter) {
 					for _, fc := range fmtCalls {
 						if valueReaches(call.Call.Args[0], fc, 8) || dataViaArchive(call.Call.Args[0], fc, fn) {
 							derives = true
+						}
+						// the helper formatted the members of the archive it was handed, and that archive is written
+						if inner := viaHelper[fc]; inner != nil {
+							if dc, ok := call.Call.Args[0].(*ssa.Call); ok && dc.Call.StaticCallee() != nil && dc.Call.StaticCallee().Name() == "Format" && len(dc.Call.Args) == 1 {
+								handed := false
+								for _, a := range fc.Call.Args {
+									if a == dc.Call.Args[0] {
+										handed = true
+									}
+								}
+								for _, ifc := range inner {
+									if handed && dataViaArchive(dc, ifc, fc.Call.StaticCallee()) {
+										derives = true
+									}
+								}
+							}
 						}
 					}
 					if !derives {
@@ -342,10 +395,14 @@ func runAtomicWrite(c *Ctx, r *Reporter) {
 			}
 		}
 	}
-	// W6
+	// W6 — format, together with the helpers of the command it calls directly (parseSource, checkFormatted …)
 	var parse, fmtMeth *ssa.Call
 	var cmp *ssa.BinOp
-	for _, b := range format.Blocks {
+	var fblocks []*ssa.BasicBlock
+	for _, h := range regionFns(format, 1, nil) {
+		fblocks = append(fblocks, h.Blocks...)
+	}
+	for _, b := range fblocks {
 		for _, ins := range b.Instrs {
 			switch x := ins.(type) {
 			case *ssa.Call:
@@ -365,26 +422,71 @@ func runAtomicWrite(c *Ctx, r *Reporter) {
 		}
 	}
 	fq := "format"
-	if parse == nil || fmtMeth == nil {
+	if parse == nil || fmtMeth == nil || fmtMeth.Parent() != format {
 		r.Viol(fq+"#W6", p.Rel(format.Pos()), "format must parse its input and print the program with (*Program).Format")
 		return
 	}
-	r.Check(nilErrGuards(parse, fmtMeth), fq+"#W6:parse-before-format", p.Rel(instrPos(fmtMeth)), "only a program that parsed is formatted", "(*Program).Format is not confined to the err == nil edge of parser.Parse")
+	// the call in format that stands for an instruction of a helper, and helper parameters traced to format's values
+	siteOf := func(ins ssa.Instruction) *ssa.Call {
+		if ins.Parent() == format {
+			return nil
+		}
+		var site *ssa.Call
+		for _, ci := range callsTo(format, ins.Parent()) {
+			if c2, ok := ci.(*ssa.Call); ok {
+				if site != nil {
+					return nil
+				}
+				site = c2
+			}
+		}
+		return site
+	}
+	upF := func(v ssa.Value) ssa.Value {
+		prm, ok := v.(*ssa.Parameter)
+		if !ok || prm.Parent() == format {
+			return v
+		}
+		sites := callsTo(format, prm.Parent())
+		if len(sites) != 1 {
+			return v
+		}
+		for i, hp := range prm.Parent().Params {
+			if hp == prm && i < len(sites[0].Common().Args) {
+				return sites[0].Common().Args[i]
+			}
+		}
+		return v
+	}
+	okPF := false
+	if parse.Parent() == format {
+		okPF = nilErrGuards(parse, fmtMeth)
+	} else if hc := siteOf(parse); hc != nil {
+		// the helper hands out Parse's program, without an error only where Parse succeeded, and format formats that
+		okPF = nilErrGuards(hc, fmtMeth) && valueReaches(fmtMeth.Call.Args[0], hc, 3)
+		for _, ret := range returnsOf(parse.Parent()) {
+			if isSuccessReturn(ret) && !(nilErrGuards(parse, ret) && len(ret.Results) == 2 && valueReaches(ret.Results[0], parse, 3)) {
+				okPF = false
+			}
+		}
+	}
+	r.Check(okPF, fq+"#W6:parse-before-format", p.Rel(instrPos(fmtMeth)), "only a program that parsed is formatted", "(*Program).Format is not confined to the err == nil edge of parser.Parse")
 	okParseIn := false
-	if cv, ok := parse.Call.Args[0].(*ssa.Convert); ok {
-		_, okParseIn = cv.X.(*ssa.Parameter)
+	if cv, ok := upF(parse.Call.Args[0]).(*ssa.Convert); ok {
+		prm, isPrm := cv.X.(*ssa.Parameter)
+		okParseIn = isPrm && prm.Parent() == format
 	}
 	r.Check(okParseIn, fq+"#W6:parses-input", p.Rel(instrPos(parse)), "the text parsed is the input", "parser.Parse is not called with the input bytes")
 	okCmp := false
 	if cmp != nil {
-		in, out := cmp.X, cmp.Y
+		in, out := upF(cmp.X), upF(cmp.Y)
 		isIn := func(v ssa.Value) bool {
 			cv, ok := v.(*ssa.Convert)
 			if !ok {
 				return false
 			}
-			_, isParam := cv.X.(*ssa.Parameter)
-			return isParam
+			prm, isParam := cv.X.(*ssa.Parameter)
+			return isParam && prm.Parent() == format
 		}
 		isOut := func(v ssa.Value) bool { return valueReaches(v, fmtMeth, 4) }
 		if (isIn(in) && isOut(out)) || (isIn(out) && isOut(in)) {
@@ -400,10 +502,20 @@ func runAtomicWrite(c *Ctx, r *Reporter) {
 				}
 				t := ifi.Block().Succs[edge]
 				if len(t.Instrs) > 0 {
-					if ret, ok := t.Instrs[len(t.Instrs)-1].(*ssa.Return); ok && len(ret.Results) == 2 {
-						if u, ok := ret.Results[1].(*ssa.UnOp); ok {
+					if ret, ok := t.Instrs[len(t.Instrs)-1].(*ssa.Return); ok && len(ret.Results) >= 1 {
+						if u, ok := ret.Results[len(ret.Results)-1].(*ssa.UnOp); ok {
 							if g, ok := u.X.(*ssa.Global); ok && g.Name() == "errNotFormatted" {
 								okCmp = true
+							}
+						}
+					}
+				}
+				// … and the equal edge does not: a helper that compares returns no error there
+				if okCmp && cmp.Parent() != format {
+					for _, ret := range returnsOf(cmp.Parent()) {
+						if reachesBlock(ifi.Block().Succs[1-edge], ret.Block()) || ifi.Block().Succs[1-edge] == ret.Block() {
+							if k, isConst := ret.Results[len(ret.Results)-1].(*ssa.Const); !isConst || !k.IsNil() {
+								okCmp = false
 							}
 						}
 					}
@@ -411,15 +523,15 @@ func runAtomicWrite(c *Ctx, r *Reporter) {
 				// the comparison itself is evaluated only when checkOnly holds
 				if okCmp {
 					okCmp = false
-					for d := ifi.Block(); d != nil; d = d.Idom() {
-						idom := d.Idom()
-						if idom == nil || len(idom.Instrs) == 0 {
-							continue
-						}
-						if i2, ok := idom.Instrs[len(idom.Instrs)-1].(*ssa.If); ok {
-							if _, isParam := i2.Cond.(*ssa.Parameter); isParam && edgeDominates(idom, 0, ifi.Block()) {
-								okCmp = true
-							}
+					at := ifi.Block()
+					if hc := siteOf(cmp); hc != nil {
+						at = hc.Block()
+					} else if cmp.Parent() != format {
+						continue
+					}
+					for _, f := range impliedConds(at) {
+						if prm, isParam := f.Cond.(*ssa.Parameter); isParam && prm.Parent() == format && f.Truth {
+							okCmp = true
 						}
 					}
 				}
@@ -546,6 +658,178 @@ func dataViaArchive(data ssa.Value, fc *ssa.Call, fn *ssa.Function) bool {
 		}
 	}
 	return false
+}
+
+// chainEvent: one file primitive on the success path of writeAtomically, in the function that makes the call.
+type chainEvent struct {
+	name string
+	call *ssa.Call
+}
+
+// flattenChain lists the file primitives that fn performs on its way to a successful return, helpers of the package
+// included, in order — provided the chain is tight: the significant calls of a function lie on one path, each runs
+// only on the err == nil edge of the one before, and a successful return is either behind the err == nil edge of the
+// last one or returns that call's error itself. Otherwise the reason is returned.
+func flattenChain(fn *ssa.Function, depth int) ([]chainEvent, string) {
+	prims := map[string]bool{"os.CreateTemp": true, "os.File.Write": true, "os.File.Chmod": true, "os.File.Close": true, "os.Rename": true, "os.Stat": true}
+	type sigCall struct {
+		call *ssa.Call
+		sub  []chainEvent
+		name string
+	}
+	var sig []sigCall
+	for _, b := range fn.Blocks {
+		for _, ins := range b.Instrs {
+			call, ok := ins.(*ssa.Call)
+			if !ok || call.Call.StaticCallee() == nil {
+				continue
+			}
+			sc := call.Call.StaticCallee()
+			if name := pkgFuncName(sc); prims[name] {
+				if inCycle(b) {
+					return nil, name + " is called in a loop"
+				}
+				sig = append(sig, sigCall{call: call, name: name})
+				continue
+			}
+			if sc.Pkg == fn.Pkg && len(sc.Blocks) > 0 && depth < 3 && errResultOf(call) != nil {
+				sub, why := flattenChain(sc, depth+1)
+				if why != "" {
+					return nil, why
+				}
+				if len(sub) > 0 {
+					if inCycle(b) {
+						return nil, sc.Name() + " is called in a loop"
+					}
+					sig = append(sig, sigCall{call: call, sub: sub, name: sc.Name()})
+				}
+			}
+		}
+	}
+	if len(sig) == 0 {
+		return nil, ""
+	}
+	// one path: totally ordered by dominance
+	sort.SliceStable(sig, func(i, j int) bool { return instrDominates(sig[i].call, sig[j].call) })
+	for i := 0; i+1 < len(sig); i++ {
+		if !instrDominates(sig[i].call, sig[i+1].call) {
+			return nil, sig[i].name + " and " + sig[i+1].name + " in " + fn.Name() + " do not lie on one path"
+		}
+		if !nilErrGuards(sig[i].call, sig[i+1].call) {
+			return nil, sig[i+1].name + " in " + fn.Name() + " is not confined to the err == nil edge of " + sig[i].name
+		}
+	}
+	last := sig[len(sig)-1].call
+	for _, ret := range returnsOf(fn) {
+		if !isSuccessReturn(ret) {
+			continue
+		}
+		passes := len(ret.Results) > 0 && ret.Results[len(ret.Results)-1] == errResultOf(last) && instrDominates(last, ret)
+		if !passes && !nilErrGuards(last, ret) {
+			return nil, fn.Name() + " can return without an error although " + sig[len(sig)-1].name + " has not succeeded"
+		}
+	}
+	var out []chainEvent
+	for _, sc := range sig {
+		if sc.sub != nil {
+			out = append(out, sc.sub...)
+		} else {
+			out = append(out, chainEvent{sc.name, sc.call})
+		}
+	}
+	return out, ""
+}
+
+// atomicWriteChain checks the temp-file-and-rename discipline when its steps are spread over helpers of the writer.
+// It reports false when the steps cannot be found at all.
+func atomicWriteChain(p *Program, r *Reporter, writer *ssa.Function, wq, wpos string) bool {
+	events, why := flattenChain(writer, 0)
+	idx := map[string]int{}
+	at := map[string]*ssa.Call{}
+	for i, e := range events {
+		if _, dup := idx[e.name]; dup {
+			why = e.name + " is called twice on the way"
+		}
+		idx[e.name], at[e.name] = i, e.call
+	}
+	for _, need := range []string{"os.CreateTemp", "os.File.Write", "os.File.Close", "os.Rename"} {
+		if at[need] == nil {
+			if why != "" {
+				r.Viol(wq+"#sequence", wpos, "the steps of writeAtomically cannot be followed through its helpers: "+why)
+				return true
+			}
+			return false
+		}
+	}
+	// a value in a helper, traced to the function that handed it in
+	region := regionFns(writer, 3, nil)
+	var up func(v ssa.Value, depth int) ssa.Value
+	up = func(v ssa.Value, depth int) ssa.Value {
+		prm, ok := v.(*ssa.Parameter)
+		if !ok || prm.Parent() == writer || depth > 3 {
+			return v
+		}
+		var site ssa.CallInstruction
+		n := 0
+		for _, f := range region {
+			for _, ci := range callsTo(f, prm.Parent()) {
+				site = ci
+				n++
+			}
+		}
+		if n != 1 {
+			return v
+		}
+		for i, hp := range prm.Parent().Params {
+			if hp == prm && i < len(site.Common().Args) {
+				return up(site.Common().Args[i], depth+1)
+			}
+		}
+		return v
+	}
+	var filename, data ssa.Value
+	for _, prm := range writer.Params {
+		if b, ok := prm.Type().Underlying().(*types.Basic); ok && b.Kind() == types.String {
+			filename = prm
+		}
+		if _, ok := prm.Type().Underlying().(*types.Slice); ok {
+			data = prm
+		}
+	}
+	createTemp, write, closeC, rename, chmod, stat := at["os.CreateTemp"], at["os.File.Write"], at["os.File.Close"], at["os.Rename"], at["os.File.Chmod"], at["os.Stat"]
+	var tempFile ssa.Value
+	for _, ref := range *createTemp.Referrers() {
+		if ex, ok := ref.(*ssa.Extract); ok && ex.Index == 0 {
+			tempFile = ex
+		}
+	}
+	okDir := false
+	if dirCall, ok := up(createTemp.Call.Args[0], 0).(*ssa.Call); ok && dirCall.Call.StaticCallee() != nil && pkgFuncName(dirCall.Call.StaticCallee()) == "path/filepath.Dir" {
+		okDir = up(dirCall.Call.Args[0], 0) == filename
+	}
+	r.Check(okDir, wq+"#W2:same-directory", p.Rel(instrPos(createTemp)), "the temp file is created in the directory of the target (rename cannot cross file systems)", "os.CreateTemp must get filepath.Dir(filename): a temp file elsewhere makes the final rename a non-atomic copy or fails across file systems")
+	okRen := len(rename.Call.Args) == 2 && up(rename.Call.Args[1], 0) == filename
+	if okRen {
+		nameCall, ok := up(rename.Call.Args[0], 0).(*ssa.Call)
+		okRen = ok && nameCall.Call.StaticCallee() != nil && pkgFuncName(nameCall.Call.StaticCallee()) == "os.File.Name" && up(nameCall.Call.Args[0], 0) == tempFile
+	}
+	r.Check(okRen, wq+"#W2:rename-temp-onto-target", p.Rel(instrPos(rename)), "the written temp file is renamed onto the target", "os.Rename must move tempFile.Name() onto filename")
+	r.Check(len(write.Call.Args) == 2 && up(write.Call.Args[0], 0) == tempFile && up(write.Call.Args[1], 0) == data, wq+"#W3:write-data", p.Rel(instrPos(write)), "the formatted bytes are written to the temp file", "tempFile.Write must write the data parameter to the temp file")
+	seq := []string{"os.CreateTemp", "os.File.Write", "os.File.Close", "os.Rename"}
+	names := []string{"CreateTemp", "Write", "Close", "Rename"}
+	for i := 0; i+1 < len(seq); i++ {
+		r.Check(why == "" && idx[seq[i]] < idx[seq[i+1]], fmt.Sprintf("%s#W3:%s-ok-before-%s", wq, names[i], names[i+1]), p.Rel(instrPos(at[seq[i+1]])), names[i+1]+" runs only after "+names[i]+" succeeded (through the helpers)",
+			fmt.Sprintf("%s is not confined to the err == nil edge of %s (%s): after a failed %s the target would be replaced by an incomplete temp file", names[i+1], names[i], why, names[i]))
+	}
+	r.Check(up(closeC.Call.Args[0], 0) == tempFile, wq+"#W3:close-temp", p.Rel(instrPos(closeC)), "the temp file is closed before the rename", "Close must close the temp file")
+	r.Check(why == "" && idx["os.Rename"] == len(events)-1, wq+"#W3:success-after-rename", wpos, "success is reported only after the rename succeeded", "writeAtomically can return nil without a successful rename ("+why+")")
+	okMode := false
+	if chmod != nil && stat != nil && why == "" {
+		okMode = up(chmod.Call.Args[0], 0) == tempFile && up(stat.Call.Args[0], 0) == filename && chmod.Parent() == stat.Parent() && valueReaches(chmod.Call.Args[1], stat, 8) &&
+			idx["os.File.Write"] < idx["os.File.Chmod"] && idx["os.Stat"] < idx["os.File.Chmod"] && idx["os.File.Chmod"] < idx["os.Rename"]
+	}
+	r.Check(okMode, wq+"#W4:permission-bits", wpos, "the temp file receives the target's permission bits (Stat → Chmod) before the rename", "the temp file created by os.CreateTemp has mode 0600; without a Chmod to the target's Stat().Mode().Perm() before the rename, `evy fmt -w` silently changes the file's permissions")
+	return true
 }
 
 var _ = packages.NeedName
